@@ -88,3 +88,11 @@ def run_sections(mod, chk, repo, tier, strict, fname='run'):
                           f'{os.path.basename(tb.filename)}:{tb.lineno})', '')
         if ids:
             last_clause = ids[-1]
+
+
+def run_nested(mod, chk, repo, tier, fname='run'):
+    """Run another property's driver on behalf of this one (its obligations routed through a Remap): section by section on
+    a tree other than the pinned one, so that one rule of the other property that no longer applies does not silence the
+    rules that come after it."""
+    strict = getattr(chk, 'strict', True)
+    return run_sections(mod, chk, repo, tier, strict, fname=fname)
